@@ -2,9 +2,44 @@ package main
 
 import (
 	"strings"
+	"sync/atomic"
+	"time"
 
+	"github.com/boombuler/barcode"
 	"github.com/boombuler/barcode/aztec"
 )
+
+// A call into the library that does not return within azTimeout is reported as
+// HANG (C10: the encoder never hangs); after two such calls the remaining
+// cases of this process are answered HANG-SKIPPED at once, so that a looping
+// implementation is reported quickly instead of stalling the check.
+const azTimeout = 10 * time.Second
+
+var azHangs int32
+
+func guarded(h handler) handler {
+	return func(args []string) string {
+		if atomic.LoadInt32(&azHangs) >= 2 {
+			return "HANG-SKIPPED"
+		}
+		ch := make(chan string, 1)
+		go func() {
+			defer func() {
+				if r := recover(); r != nil {
+					ch <- "PANIC"
+				}
+			}()
+			ch <- h(args)
+		}()
+		select {
+		case r := <-ch:
+			return r
+		case <-time.After(azTimeout):
+			atomic.AddInt32(&azHangs, 1)
+			return "HANG"
+		}
+	}
+}
 
 func bitsStr(bs []bool) string {
 	if len(bs) == 0 {
@@ -33,6 +68,7 @@ func strBits(s string) []bool {
 }
 
 // az <pct> <layers> <hex data>        : aztec.Encode, describe format
+// azcol <scheme> <pct> <layers> <hex> : aztec.EncodeWithColor with ColorScheme8/16/24/32
 // azhl <hex data>                     : highlevelEncode bit string
 // azstuff <w> <bits>                  : stuffBits
 // azmode <compact 0|1> <layers> <words> : generateModeMessage
@@ -41,8 +77,21 @@ func strBits(s string) []bool {
 // azplace <compact 0|1> <layers>      : "<size> x,y x,y ..." per message bit index; "?" = not determined
 // aztb <compact 0|1> <layers>         : totalBitsInLayer
 func init() {
+	reg := register
+	register := func(tag string, h handler) { reg(tag, guarded(h)) }
 	register("az", func(args []string) string {
 		return describe(aztec.Encode(unhex(args[2]), atoi(args[0]), atoi(args[1])))
+	})
+	// azcol <scheme 8|16|24|32> <pct> <layers> <hex data> : aztec.EncodeWithColor; describe prints
+	// the modules through the scheme's own foreground / background ('?' for any other colour)
+	register("azcol", func(args []string) string {
+		sc := map[string]barcode.ColorScheme{"8": barcode.ColorScheme8, "16": barcode.ColorScheme16,
+			"24": barcode.ColorScheme24, "32": barcode.ColorScheme32}[args[0]]
+		bc, err := aztec.EncodeWithColor(unhex(args[3]), atoi(args[1]), atoi(args[2]), sc)
+		if err == nil && (bc.ColorModel() != sc.Model || bc.(barcode.BarcodeColor).ColorScheme() != sc) {
+			return "WRONG-SCHEME"
+		}
+		return describe(bc, err)
 	})
 	register("azhl", func(args []string) string {
 		return bitsStr(aztec.VerifHighLevel(unhex(args[0])))
